@@ -148,3 +148,63 @@ Theorem C07_axes_only_variant_can_end_infeasible (feasX feasY : list Q -> Prop) 
   exists s', steps feasX feasY (run_trace_axes rk true false iters) (X0, Y0) s' /\ ~ feasY (snd s').
 Proof. exact (axes_only_variant_can_end_infeasible_thm feasX feasY X0 Y0 rk iters). Qed.
 Print Assumptions C07_axes_only_variant_can_end_infeasible.
+
+(* ---- the sub-constraint cursor protocol of makeFeasible(), constraint objects re-used across calls (seeded change C07-6) ----
+   Model Cola/SubCursorModel.v (markAllSubConstraintsAsInactive / subConstraintsRemaining / getCurrSubConstraintAlternatives /
+   markCurrSubConstraintAsActive of compound_constraints.cpp and the loops colafd.cpp:660-853); the solver's accept / reject
+   decision is the Section variable `accept` (oracle) - universally quantified in every theorem below.  Tie: checks/c07.py
+   family 'reuse' compares, per makeFeasible() call and per constraint object, the events an observer subclass of the real
+   class logs (harness/c07_cc.cpp mode seq) with cc_trace of the extracted mf_call run on the observed decisions. *)
+From Adapt Require Import Cola.SubCursorModel Cola.SubCursor.
+Local Open Scope nat_scope.
+
+(* one call, constraint objects in ANY state (every history of completed or aborted earlier calls), any solver decisions *)
+Theorem C07_makeFeasible_accounts_for_every_subconstraint : accounts_all true.
+Proof. exact accounts_all_rewind_thm. Qed.
+Print Assumptions C07_makeFeasible_accounts_for_every_subconstraint.
+
+(* the same statement with the rewind `_currSubConstraintIndex = 0;` dropped is false *)
+Theorem C07_makeFeasible_without_rewind_refuted : ~ accounts_all false.
+Proof. exact mf_call_norewind_refuted_thm. Qed.
+Print Assumptions C07_makeFeasible_without_rewind_refuted.
+
+Theorem C07_makeFeasible_without_rewind_second_call_skips_everything :
+  mf_call accept_all false 5 demo_after_first []
+  = ROk ([mkCcst KNormal 1 [1] 1 [false]; mkCcst KNormal 2 [1; 1] 2 [false; false]],
+         mkAcc [ERemaining 1 false; EInactive 1; ERemaining 0 false; EInactive 0] [] []).
+Proof. exact mf_call_norewind_second_call_skips_everything_thm. Qed.
+Print Assumptions C07_makeFeasible_without_rewind_second_call_skips_everything.
+
+(* ... and on freshly constructed objects the two variants cannot be told apart (why per-layout fresh objects never show it) *)
+Theorem C07_makeFeasible_without_rewind_first_call_same (accept : oracle) fuel ccs log0 :
+  Forall (fun s => ccur s = 0) ccs ->
+  mf_call accept false fuel ccs log0 = mf_call accept true fuel ccs log0.
+Proof. exact (mf_norewind_first_call_same_thm accept fuel ccs log0). Qed.
+Print Assumptions C07_makeFeasible_without_rewind_first_call_same.
+
+(* public-API level: objects constructed once, any number of earlier makeFeasible() calls, then the call under test *)
+Theorem C07_makeFeasible_reused_objects (ccs : list cc) (oracles : list oracle) (accept : oracle) fuel :
+  (forall c, In c ccs -> cc_nsubs c < fuel) -> 2 <= fuel ->
+  exists ccs1 log1 ccs' A new,
+    mf_history true fuel oracles (constructed ccs) [] = ROk (ccs1, log1) /\
+    mf_call accept true fuel ccs1 log1 = ROk (ccs', A) /\ a_log A = new ++ log1 /\
+    forall i c, nth_error ccs i = Some c -> cc_kind c <> KSkip ->
+      exists s', nth_error ccs' i = Some s' /\ ccur s' = cc_nsubs c /\
+        forall k, k < cc_nsubs c ->
+          offer_count i k new = 1 /\
+          valid_count i k (a_valid A) + rej_count i k (a_rej A) = 1 /\
+          (nth k (cflags s') false = true <-> valid_count i k (a_valid A) = 1).
+Proof. exact (makeFeasible_reused_objects_thm ccs oracles accept fuel). Qed.
+Print Assumptions C07_makeFeasible_reused_objects.
+
+(* non-vacuity: the hypotheses hold on a concrete state with cursors beyond / in the middle / at the end, an oracle that rejects,
+   two-alternative sub-constraints, a combined and a skipping object; and on a two-call history of constructed objects *)
+Example C07_cursor_nonvacuous_state :
+  Forall wf_cc demo_odd_state /\ (forall s, In s demo_odd_state -> cn s < 6) /\ 2 <= 6.
+Proof. exact demo_odd_state_hyps. Qed.
+Example C07_cursor_nonvacuous_history :
+  (forall c, In c demo_ccs -> cc_nsubs c < 5) /\ 2 <= 5 /\
+  Forall (fun c => cc_kind c <> KSkip) demo_ccs /\
+  exists A, mf_history true 5 [accept_all; demo_oracle] (constructed demo_ccs) [] = ROk (A) /\
+            map ccur (fst A) = [1; 2] /\ map cflags (fst A) = [[true]; [true; false]].
+Proof. exact makeFeasible_reused_objects_nonvacuous. Qed.
